@@ -114,9 +114,9 @@ TProbe ==
        /\ r.e = "call" /\ Has(r, "probe")
        /\ r.out \in {"ok", "throw"} /\ (r.out = "throw" => r.std)
        /\ (Has(r, "obs_throw") => r.obs_throw.std)
-       /\ (Has(r, "probes") => \A k \in DOMAIN r.probes : (r.probes[k] = "ok" \/ r.probes[k].std))
+       /\ (Has(r, "probes") => \A k \in DOMAIN r.probes : r.probes[k].std)
        \* handles to removed crates stay safe to copy, assign and ask for their id
-       /\ (Has(r, "probes") => r.probes.id = "ok" /\ r.probes.copy = "ok" /\ r.probes.is_valid = "ok")
+       /\ (Has(r, "probes") => r.probes.id.ok /\ r.probes.copy.ok /\ r.probes.is_valid.ok)
     /\ probing' = TRUE
     /\ l' = l + 1 /\ UNCHANGED <<vars, tinfo>>
 
